@@ -223,8 +223,8 @@ def vector_cases() -> list[tuple[str, str, str]]:
     from symplyphysics import Quantity, QuantityVector
     from symplyphysics.core.approx import assert_equal_vectors
     out = []
-    base = [1.7, -2.3, 0.9]
-    for n in (1, 2, 3):
+    base = [1.7, -2.3, 0.9, 3.1, -0.6]  # lengths up to 5: four-vectors and longer lists
+    for n in (1, 2, 3, 4, 5):
         a = QuantityVector([Quantity(x * U.meter) for x in base[:n]])
         out.append((f"vec:{n}:same", PASS, judge(PASS, outcome(lambda: assert_equal_vectors(a, a)))))
         for i in range(n):
@@ -242,7 +242,7 @@ def vector_cases() -> list[tuple[str, str, str]]:
         c = QuantityVector([Quantity(x * U.second) for x in base[:n]])
         out.append((f"vec:{n}:dimension", FAIL, judge(FAIL, outcome(lambda:
             assert_equal_vectors(a, c)))))
-        for m in (1, 2, 3):
+        for m in (1, 2, 3, 4, 5):
             if m == n:
                 continue
             d = QuantityVector([Quantity(x * U.meter) for x in base[:m]])
